@@ -95,6 +95,16 @@ def _build(rng):
     if rng.random() < 0.5 and entries:
         # make sure the last entry of the file is used (the file may end without a line terminator)
         strings[0] = strings[0] + entries[-1][0]
+    if rng.random() < 0.2:
+        # an apostrophe entry: in a string it is written \' (the backslash itself has no entry and is skipped), in the
+        # middle and as the very last character of the text
+        code = next((c for c in ("27", "a7", "9927") if all(c != e[1] for e in entries)), None)
+        if code:
+            entries.append(["'", code])
+            q = "\\'"
+            strings[1] = strings[1][: len(strings[1]) // 2] + q + strings[1][len(strings[1]) // 2:]
+            strings[2] = strings[2] + q
+            strings[4] = q
     return {"family": family, "entries": entries, "other": other, "strings": strings, "mode": mode, "no_final_newline": rng.random() < 0.35}
 
 
